@@ -42,6 +42,14 @@ CHECKS.update({
          "Each operator/helper application made by the workload (incl. the inner applications the operators make themselves) is judged. Held = no differing application outside the listed finding; every cell of the type matrix exercised.",
          "trusts vmon/freeinterp.py; requests that sum over a name mentioned only with a value mark are counted, not judged (DESIGN §3)", "DESIGN §4 C13"),
 })
+CHECKS.update({
+ "C15": ("post-condition on the real get_conditional_independencies: the whole returned set vs the reference's per-pair minimum-separator table (Bayes-ball on the latent DAG, sets enumerated by increasing size up to k); exhaustive ADMGs n<=3 (quick) / n<=4 (thorough) x k x policy x return_all, random n=5..6 in two insertion orders",
+         "Exactness of the enumeration (one judgement per separable pair, none otherwise, true, canonical, minimum size) is decided for every call. Held = no differing set on the executions listed.",
+         "trusts O3; 'size limit k' read as |C|<=k", "DESIGN §4 C15"),
+ "C16": ("post-conditions on the real to_latent_variable_dag / from_latent_variable_dag / simplify_latent_dag / evans_simplify: round trip vs set algebra, observed nodes kept, second application equal, ADMG read off the result vs reference latent projection of the ORIGINAL DAG; separation (Bayes ball on the original DAG) and Tian-Pearl verdicts compared on samples; taheri_design verdicts vs reference",
+         "Round trip, idempotence, node preservation and projection equality are decided on every generated graph/DAG; separation and identifiability consequences on samples. Held = no monitor fired.",
+         "trusts O3 (latent_projection, Bayes ball) and O4", "DESIGN §4 C16"),
+})
 PLANNED = {}
 
 def main():
